@@ -18,6 +18,9 @@ type c07Case struct {
 	Version string    `json:"version"`
 	Auth    []vfBytes `json:"auth"`  // auth state events (JSON)
 	Event   vfBytes   `json:"event"` // event under check (JSON)
+	// Untrusted: every event goes through NewEventFromUntrustedJSON (as events from other servers do)
+	// instead of the trusted parser; an event the parser refuses ends the case (nothing to authorise).
+	Untrusted bool `json:"untrusted,omitempty"`
 }
 
 func c07Band(version string) string {
@@ -58,18 +61,41 @@ func c07Check(ctx *vfCtx, c c07Case) {
 		// still must not panic
 	}
 	want, rule := rauth(c.Version, st, evTreeV)
+	parse := raParsePDU
+	if c.Untrusted {
+		parse = func(version string, t jv) (PDU, error) {
+			impl, err := GetRoomVersion(RoomVersion(version))
+			if err != nil {
+				return nil, err
+			}
+			var p PDU
+			if vfCatch(ctx, "C07/untrusted-parse", func() { p, err = impl.NewEventFromUntrustedJSON([]byte(jplain(t))) }) {
+				return nil, fmt.Errorf("panic")
+			}
+			if err == nil && p != nil && p.Redacted() {
+				return nil, fmt.Errorf("generator: content hash mismatch")
+			}
+			return p, err
+		}
+	}
 	var pdus []PDU
 	for _, t := range trees {
-		p, err := raParsePDU(c.Version, t)
+		p, err := parse(c.Version, t)
 		if err != nil {
-			ctx.Unjudged("generator: auth event does not parse: " + err.Error())
+			if c.Untrusted {
+				ctx.Class("refused-at-parse/auth-event")
+			}
+			ctx.Unjudged("auth event does not parse: " + c07Short(err))
 			return
 		}
 		pdus = append(pdus, p)
 	}
-	ev, err := raParsePDU(c.Version, evTreeV)
+	ev, err := parse(c.Version, evTreeV)
 	if err != nil {
-		ctx.Unjudged("generator: event does not parse: " + err.Error())
+		if c.Untrusted {
+			ctx.Class("refused-at-parse/event")
+		}
+		ctx.Unjudged("event does not parse: " + c07Short(err))
 		return
 	}
 	var aerr error
@@ -108,6 +134,116 @@ func c07Check(ctx *vfCtx, c c07Case) {
 		ctx.Fail("C07/"+stem+"/lib:"+lib+"/"+c07Band(c.Version),
 			"Allowed = %v but the rules (%s) say allow=%v; version %s event=%s auth=%v", aerr, rule, want, c.Version, c.Event, c07Strs(c.Auth))
 	}
+}
+
+func c07Short(err error) string {
+	s := err.Error()
+	if len(s) > 60 {
+		s = s[:60]
+	}
+	return s
+}
+
+// ---- look-alike content keys ------------------------------------------------------------------
+// An unknown content key does not take part in any rule - also when it is spelled like a known one
+// in another letter case, or with a letter that case-folds to ASCII (U+017F -> s, U+212A -> k).
+
+var c07LookAlikeKeys = map[string][]string{
+	"m.room.member":             {"membership", "join_authorised_via_users_server", "third_party_invite"},
+	"m.room.power_levels":       {"users", "users_default", "events", "events_default", "state_default", "ban", "kick", "invite", "redact", "notifications"},
+	"m.room.join_rules":         {"join_rule", "allow"},
+	"m.room.create":             {"creator", "m.federate", "room_version", "additional_creators"},
+	"m.room.third_party_invite": {"public_key", "public_keys"},
+}
+
+func c07LookAlike(t *rapid.T, name string) string {
+	var opts []string
+	opts = append(opts, strings.ToUpper(name[:1])+name[1:], strings.ToUpper(name))
+	if i := strings.IndexByte(name, 's'); i >= 0 {
+		opts = append(opts, name[:i]+"\u017f"+name[i+1:])
+	}
+	if i := strings.IndexByte(name, 'k'); i >= 0 {
+		opts = append(opts, name[:i]+"\u212a"+name[i+1:])
+	}
+	if i := strings.LastIndexByte(name, '_'); i >= 0 && i+1 < len(name) {
+		opts = append(opts, name[:i+1]+strings.ToUpper(name[i+1:i+2])+name[i+2:])
+	}
+	return rapid.SampledFrom(opts).Draw(t, "lookAlike")
+}
+
+func c07LookAlikeValue(t *rapid.T, name string) jv {
+	switch name {
+	case "membership":
+		return jstr(rapid.SampledFrom([]string{"join", "ban", "leave", "invite", "knock"}).Draw(t, "lvMem"))
+	case "join_authorised_via_users_server", "creator":
+		return jstr(rapid.SampledFrom(c07Users).Draw(t, "lvUser"))
+	case "users":
+		return jobj(rapid.SampledFrom(c07Users).Draw(t, "lvWho"), jnum(int64(rapid.SampledFrom([]int{0, 50, 100, 1000}).Draw(t, "lvLvl"))))
+	case "events", "notifications":
+		return jobj(rapid.SampledFrom([]string{"m.room.power_levels", "m.room.topic", "m.room.message", "room"}).Draw(t, "lvEv"), jnum(int64(rapid.SampledFrom([]int{0, 100}).Draw(t, "lvLvl2"))))
+	case "join_rule":
+		return jstr(rapid.SampledFrom(c07JoinRules).Draw(t, "lvJR"))
+	case "allow":
+		return jarr(jobj("type", jstr("m.room_membership"), "room_id", jstr("!other:a.example")))
+	case "m.federate":
+		return jv{K: rapid.SampledFrom([]byte{'t', 'f'}).Draw(t, "lvFed")}
+	case "room_version":
+		return jstr(rapid.SampledFrom([]string{"bogus.version", "1", "10"}).Draw(t, "lvRV"))
+	case "additional_creators":
+		return jarr(jstr(rapid.SampledFrom(c07Users).Draw(t, "lvAC")))
+	case "third_party_invite":
+		return jobj("signed", jobj("mxid", jstr(c07Carol), "token", jstr("tok")))
+	case "public_key":
+		return jstr(c07PubB64("idkey3"))
+	case "public_keys":
+		return jarr(jobj("public_key", jstr(c07PubB64("idkey3"))))
+	}
+	return jnum(int64(rapid.SampledFrom([]int{0, 50, 100, -1, 1000}).Draw(t, "lvNum")))
+}
+
+func c07GenLookAlike(t *rapid.T) c07Case {
+	c := c07GenRandomRoom(t)
+	c.Untrusted = true
+	// victims: the event itself and the auth events of the types whose content the rules read
+	type slot struct{ auth int }
+	var slots []slot
+	if et, err := evTree(c.Event); err == nil && c07LookAlikeKeys[evStr(et, "type")] != nil {
+		slots = append(slots, slot{-1}, slot{-1})
+	}
+	for i, a := range c.Auth {
+		if at, err := evTree(a); err == nil && c07LookAlikeKeys[evStr(at, "type")] != nil {
+			slots = append(slots, slot{i})
+		}
+	}
+	if len(slots) == 0 {
+		return c
+	}
+	n := rapid.IntRange(1, 2).Draw(t, "nLookAlikes")
+	for k := 0; k < n; k++ {
+		sl := rapid.SampledFrom(slots).Draw(t, "victim")
+		raw := c.Event
+		if sl.auth >= 0 {
+			raw = c.Auth[sl.auth]
+		}
+		tree, err := evTree(raw)
+		if err != nil {
+			continue
+		}
+		name := rapid.SampledFrom(c07LookAlikeKeys[evStr(tree, "type")]).Draw(t, "lookAlikeOf")
+		ct, _ := tree.get("content")
+		if ct.K != 'o' {
+			continue
+		}
+		ct = ct.with(c07LookAlike(t, name), c07LookAlikeValue(t, name))
+		tree = tree.with("content", ct).without("hashes")
+		tree = tree.with("hashes", jobj("sha256", jstr(rcontentHash(tree))))
+		if sl.auth >= 0 {
+			c.Auth[sl.auth] = vfBytes(jplain(tree))
+		} else {
+			c.Event = vfBytes(jplain(tree))
+		}
+	}
+	return c
 }
 
 func c07Strs(b []vfBytes) []string {
@@ -786,6 +922,7 @@ func c07CreateCase(version string, prev bool, dom string, creator bool, rv strin
 func init() {
 	rule := "non-trivial = the verdict is decided by a type-specific rule of the reference (not by 'no create event / other room' or 'sender is not in the room'); distinct = distinct Case JSON. Classes are the deciding rule ids of DESIGN Appendix A."
 	vfRapid("C07/random", rule, 6000, 1000000, 16, c07GenRandom, c07Check)
+	vfRapid("C07/look-alike-content-keys", rule+" Here: random rooms in which the event or an auth event carries a content key spelled like a known one in another letter case (or with U+017F / U+212A); all events go through the untrusted parser, a refusal there ends the case.", 3000, 300000, 16, c07GenLookAlike, c07Check)
 	vfEnum("C07/membership-product", rule+" Product: 16 versions x 7 new memberships x self/other x 6 sender memberships x 6 target memberships x 7 join rules x sender level {<,=,>} threshold x target level {<,=,>} sender x restricted-join authoriser states; size = sampling stride (1 = complete).", 12, 1, 16, c07EnumMember, c07Check)
 	vfEnum("C07/generic-product", rule+" Product: 16 versions x 12 event kinds x 6 sender memberships x level {<,=,>} requirement x m.federate {absent,true,false} x sender server x power-levels present/absent, plus the create-event product; size = sampling stride.", 4, 1, 8, c07EnumGeneric, c07Check)
 }
